@@ -73,7 +73,7 @@ def roots():
     def r_two(ids):
         a = sym.msg(ids, "Head", False, [sym.field(("uint", 6), "len", 1), sym.field(("bool",), "more", 2)])
         b = sym.msg(ids, "Body", False, [sym.field(sym.arr(("int", 5), 3), "samples", 1)])
-        m = sym.msg(ids, ROOT_MSG, False, [sym.field(("ref", b["id"]), "body", 2), sym.field(("ref", a["id"]), "head", 1), sym.field(("uint", 3), "crc", 9)])
+        m = sym.msg(ids, ROOT_MSG, False, [sym.field(("ref", b["id"]), "body", 9), sym.field(("ref", a["id"]), "head", 1), sym.field(("uint", 3), "crc", 2)])  # highest number: a message
         return sym.schema([a, b, m])
 
     def r_deep(ids):
